@@ -33,7 +33,7 @@ ASSUMPTIONS = [
     'no stored-byte fault between operations: no listed property says what a reader owes its caller when the file changes under it',
     'index entry payload length is not compared (documented as including pad bytes)',
 ] + c01.ASSUMPTIONS[1:]
-PROBES = ['file_object_with_foreign_fileno', 'two_indexes_interleaved', 'index_on_path', 'restart', 'restart_replaced', 'cross1', 'cross2', 'cross_ge3', 'cross_vr', 'len0', 'len_rest', 'len_beyond', 'off_beyond', 'same_twice', 'descending',
+PROBES = ['file_object_not_at_start', 'file_object_with_foreign_fileno', 'two_indexes_interleaved', 'index_on_path', 'restart', 'restart_replaced', 'cross1', 'cross2', 'cross_ge3', 'cross_vr', 'len0', 'len_rest', 'len_beyond', 'off_beyond', 'same_twice', 'descending',
           'after_failing', 'after_scan', 'fetch_pos', 'validate', 'encrypted_fetch', 'multi_vr_fetch']
 
 File = Index = None
@@ -126,6 +126,8 @@ def generate(seed, tier):
     model = D.gen_model(rng)
     ops = gen_ops(rng, model)
     sc = {'world': 'dlis_phys', 'model': model, 'ops': ops}
+    if rng.chance(0.12):
+        sc['start_offset'] = rng.pick(['end', 'end', 1, 20, 80, 84, 200])
     if rng.chance(0.1):
         sc['foreign_fileno'] = True      # a file object whose fileno() is not the stream it delivers (gzip.open() and the like)
     if rng.chance(0.15):
@@ -177,6 +179,10 @@ def execute(scenario):
     c01.probes_of(runner.Result(), model, layout)
     clock = EventClock()
     f = SimFile(by, clock, foreign_fileno=bool(scenario.get('foreign_fileno')))
+    if scenario.get('start_offset') is not None:
+        # the caller has used the file object before: it is not at the start (just written, or its first bytes inspected)
+        f.seek(len(by) if scenario['start_offset'] == 'end' else min(scenario['start_offset'], len(by)))
+        res.probe('file_object_not_at_start')
     if scenario.get('foreign_fileno'):
         res.probe('file_object_with_foreign_fileno')
     op_shapes = []
